@@ -311,7 +311,7 @@ void carquet_avx2_prefix_sum_i32(int32_t* values, int64_t count, int32_t initial
 
     /* Handle remaining values */
     for (; i < count; i++) {
-        sum += values[i];
+        sum = (int32_t)((uint32_t)sum + (uint32_t)values[i]);  /* wraps; signed overflow is undefined */
         values[i] = sum;
     }
 }
@@ -355,7 +355,7 @@ void carquet_avx2_prefix_sum_i64(int64_t* values, int64_t count, int64_t initial
 
     /* Handle remaining values */
     for (; i < count; i++) {
-        sum += values[i];
+        sum = (int64_t)((uint64_t)sum + (uint64_t)values[i]);  /* wraps; signed overflow is undefined */
         values[i] = sum;
     }
 }
